@@ -371,6 +371,53 @@ func pcacheMain(args []string) int {
 		}
 		wg.Wait()
 		S.Stress["api_types"] = len(tys)
+		// ---- stress 3: every goroutine decodes the SAME warmed types at once, through the slow paths of the field lookup:
+		// keys that match only case-insensitively (a different spelling per goroutine and round), unknown keys, duplicates
+		variant := func(doc []byte, g, round int) []byte {
+			s := string(doc)
+			for j := 0; j < 4; j++ {
+				lower := fmt.Sprintf(`"f%d"`, j)
+				switch (g + round + j) % 3 {
+				case 0:
+					s = strings.Replace(s, lower, fmt.Sprintf(`"F%d"`, j), 1)
+				case 1:
+					s = strings.Replace(s, lower, fmt.Sprintf(`"f%d"`, j), 1)
+				}
+			}
+			if (g+round)%2 == 0 {
+				s = `{"zz_unknown":[1,{"a":null}],` + s[1:]
+			}
+			return []byte(s)
+		}
+		step := len(tys)/60 + 1
+		for round := 0; round < 3; round++ {
+			for i := 0; i < len(tys); i += step {
+				want := reflect.New(tys[i])
+				if err := json.Unmarshal(docs[i], want.Interface()); err != nil {
+					continue
+				}
+				var wg2 sync.WaitGroup
+				start := make(chan struct{})
+				for g := 0; g < G; g++ {
+					g := g
+					wg2.Add(1)
+					go func() {
+						defer wg2.Done()
+						<-start
+						p := reflect.New(tys[i])
+						err := sonic.Unmarshal(variant(docs[i], g, round), p.Interface())
+						if err != nil || !reflect.DeepEqual(p.Interface(), want.Interface()) {
+							mu.Lock()
+							addBad(pcBad{Kind: "api_mismatch", Det: fmt.Sprintf("type %d, case-variant keys: %v", i, err), Sig: "api_case_variant_mismatch"})
+							mu.Unlock()
+						}
+					}()
+				}
+				close(start)
+				wg2.Wait()
+			}
+		}
+		S.Stress["same_type_rounds"] = 3
 	}
 	S.WallS = time.Since(t0).Seconds()
 	b, _ := json.MarshalIndent(S, "", " ")
